@@ -35,7 +35,9 @@ def digitOf (b : Nat) : Option Nat :=
 
 /-- `radix_base(10)` for 64-bit limbs: `(10^19, 19)` (10^19 ≤ u64::MAX < 10^20). -/
 def POWER : Nat := 19
-def BASE : Nat := 10 ^ 19
+/-- irreducible only to keep `whnf` from unfolding `x * 10^19` structurally inside proofs (no effect on
+compiled code; `BASE_def` in Lemmas restates the value) -/
+@[irreducible] def BASE : Nat := 10 ^ 19
 
 /-- the loop `first = first * 10 + d` over the first chunk; `none` = `InvalidDigit` -/
 def parseChunk : Nat → List Nat → Option Nat
